@@ -43,7 +43,9 @@ CASES = {"quick": 1300, "thorough": 30000, "search": 6000}
 RULE = ("random SELECT queries (BGPs of 1-4 patterns over <=4 variables, joins of groups, UNION, OPTIONAL, FILTER, "
         "MINUS, BIND, VALUES, sub-SELECT, GRAPH, property paths, DISTINCT / ORDER BY / GROUP BY+COUNT) over 5-15 "
         "triples in 0-3 named graphs; each case poses the query in two or more ways the property calls equivalent "
-        "(rewrites, initBindings vs VALUES, prepared vs fresh, store back ends); non-trivial = the reference "
+        "(rewrites, initBindings vs VALUES, prepared vs fresh, store back ends incl. aggregates whose members live in "
+        "different stores and share a graph name, the same undeclared-prefix text under different prefix bindings "
+        "in sequence); non-trivial = the reference "
         "evaluation has at least one solution and at least one comparison was made; distinct = distinct "
         "(stream, data, query, recipe)")
 ASSUMPTIONS = [
@@ -54,6 +56,7 @@ ASSUMPTIONS = [
 TRUSTED = ["harness/c15.py generators, rewriters and canonicalisation", "lean/RV/C15/Drive.lean line protocol"]
 
 NS = "http://e.org/ns/"
+NS2 = "http://e.org/ns2/"
 OTHER = "http://other.org/"
 XS = "http://www.w3.org/2001/XMLSchema#"
 IRI_KEYS = ["a", "b", "c", "d", "p", "q", "r", "g1", "g2", "g3"]
@@ -358,8 +361,8 @@ def gen_case(rng, tier, i):
     """bgp / frag cases (the ones the Lean model also evaluates) are generated here; the others are generated
     inside the worker from a seed (`materialize`) because choosing a query with a non-empty answer needs
     evaluations, which would serialise the run if done in the parent process."""
-    stream = rng.choices(["rewrite", "init", "prepared", "store", "bgp", "frag", "sel"],
-                         [30, 12, 15, 15, 10, 10, 8])[0]
+    stream = rng.choices(["rewrite", "init", "prepared", "store", "bgp", "frag", "sel", "nsctx"],
+                         [28, 11, 14, 15, 10, 9, 7, 8])[0]
     if stream in ("bgp", "frag", "sel"):
         while True:
             try:
@@ -405,7 +408,8 @@ def _gen_case(rng, tier, i, stream):
         q = {"distinct": False, "proj": None, "where": {"k": "group", "els": [g.bgp(1, 4, paths=False)]},
              "group": None, "count": None, "order": None}
         case = {"stream": "bgp", "data": data, "ds": False, "q": q, "seed": seed,
-                "split": gen_split(rng, len(data), rng.random() < 0.4)}
+                "split": gen_split(rng, len(data), rng.random() < 0.4),
+                "agg_ids": rng.choice(["fresh", "stores", "same_iri", "same_bnode", "mixed"])}
         if rng.random() < 0.5:
             vs = sorted(all_vars(q))
             if vs:
@@ -462,6 +466,15 @@ def _gen_case(rng, tier, i, stream):
         case["data2"] = gen_data(rng, ds)
     elif stream == "store":
         case["split"] = gen_split(rng, len(data), rng.random() < 0.4)
+    elif stream == "nsctx":
+        # a second data set, held under another namespace in the same graphs: mostly the same triples, so that
+        # resolving the undeclared prefix to the wrong namespace gives a different, usually non-empty, answer
+        d2 = [t for t in data if rng.random() < 0.7] + gen_data(rng, ds)[: rng.randint(1, 4)]
+        seen, case["data2"] = set(), []
+        for t in d2:
+            if tuple(t) not in seen:
+                seen.add(tuple(t))
+                case["data2"].append(t)
     return case
 
 
@@ -488,15 +501,16 @@ SPELL_MODES = ["full", "e", "zz", "colon", "base", "relprefix", "mixed", "graphn
 class Speller:
     """Chooses how each IRI occurrence is written.  All modes denote the same IRIs."""
 
-    def __init__(self, mode, seed):
+    def __init__(self, mode, seed, ns=None):
         self.mode, self.rng = mode, random.Random(seed)
+        self.ns = ns or NS      # namespace the IRI keys stand for (full / ctx modes only)
         self.used_xsd = False
 
     def prologue(self):
         m = self.mode
         xs = "PREFIX XSD: <%s> " % XS
-        if m == "full":
-            return xs
+        if m in ("full", "ctx"):
+            return xs      # ctx: `ux:` is not declared in the text, it comes from the graph / initNs
         if m == "e":
             return xs + "PREFIX e: <%s> " % NS
         if m == "zz":
@@ -517,7 +531,9 @@ class Speller:
         m = self.mode
         if m == "mixed":
             m = self.rng.choice(["full", "e", "zz", "colon", "base"])
-        return {"full": "<%s%s>" % (NS, key), "e": "e:" + key, "zz": "zz:" + key, "colon": ":" + key,
+        if m == "ctx":
+            return "ux:" + key
+        return {"full": "<%s%s>" % (self.ns, key), "e": "e:" + key, "zz": "zz:" + key, "colon": ":" + key,
                 "base": "<%s>" % key, "relprefix": "rp:" + key, "graphns": "gn:" + key}[m]
 
     def term(self, t):
@@ -613,8 +629,8 @@ def select_text(sp, q):
     return s
 
 
-def query_text(q, mode="e", seed=0):
-    sp = Speller(mode, seed)
+def query_text(q, mode="e", seed=0, ns=None):
+    sp = Speller(mode, seed, ns)
     body = select_text(sp, q)
     return sp.prologue() + body
 
@@ -768,14 +784,27 @@ def _bind_ns(g):
     g.bind("gn", URIRef(NS), override=True, replace=True)
 
 
-def build(data, kind="mem", ds=False, split=None, order_seed=None):
+def _member(i, ids):
+    """member graph i of an aggregate: its own store (Memory / SimpleMemory in turn) and an identifier that
+    other members may share (`Graph.__eq__` compares identifiers only)"""
+    store = Memory() if i % 2 == 0 else SimpleMemory()
+    if ids == "same_iri":
+        return Graph(store=store, identifier=URIRef(NS + "part"))
+    if ids == "same_bnode":
+        return Graph(store=store, identifier=BNode("part"))
+    if ids == "mixed":
+        return Graph(store=store, identifier=[URIRef(NS + "part"), BNode("part"), URIRef(NS + "part")][i % 3])
+    return Graph(store=store) if ids == "stores" else Graph()
+
+
+def build(data, kind="mem", ds=False, split=None, order_seed=None, agg_ids="fresh"):
     """the same data in one of the configurations of the property"""
     rows = list(data)
     if order_seed is not None:
         random.Random(order_seed).shuffle(rows)
     if kind == "agg":
         k = 1 + max((max(m) if isinstance(m, list) else m) for m in split) if split else 2
-        members = [Graph() for _ in range(max(k, 2))]
+        members = [_member(i, agg_ids) for i in range(max(k, 2))]
         for (s, p, o, _g), m in zip(data, split):
             for mm in (m if isinstance(m, list) else [m]):
                 members[mm].add((TERMS[s], TERMS[p], TERMS[o]))
@@ -834,6 +863,28 @@ class _Flaky(Graph):
         return super().query(*a, **kw)
 
 
+def _term_ns(key, ns):
+    t = TERMS[key]
+    return URIRef(ns + key) if isinstance(t, URIRef) else t
+
+
+def build_two_ns(data1, data2, ds, ux):
+    """one graph holding data1 under NS and data2 under NS2; its namespace manager binds `ux:` to `ux`"""
+    g = Dataset() if ds else Graph()
+    for data, ns in ((data1, NS), (data2, NS2)):
+        for s_, p_, o_, c in data:
+            tr = (_term_ns(s_, ns), _term_ns(p_, ns), _term_ns(o_, ns))
+            if ds:
+                (g.default_context if c == 0 else g.graph(URIRef(ns + GRAPH_IRI[c]))).add(tr)
+            else:
+                g.add(tr)
+    # the same prefix NAMES in every such graph (only what `ux:` stands for differs); no other prefix for NS / NS2,
+    # which the one-to-one namespace manager would drop
+    g.bind("e", URIRef(OTHER), override=True, replace=True)
+    g.bind("ux", URIRef(ux), override=True, replace=True)
+    return g
+
+
 def _exc_name(e):
     n = type(e).__name__
     if n in ("IndexError", "KeyError", "ValueError", "TypeError", "ParseException", "AlreadyBound", "RecursionError"):
@@ -858,14 +909,18 @@ def is_ordered(q):
     return bool(q["order"]) and set(v for _d, v in q["order"]) >= set(select_columns(q))
 
 
-def evaluate(g, q, mode="e", seed=0, colmap=None, init=None, prepared=None):
+def evaluate(g, q, mode="e", seed=0, colmap=None, init=None, prepared=None, text=None, initNs=None):
     """one evaluation -> canonical result (errors are values)"""
     try:
         kw = {}
         if init:
             kw["initBindings"] = init
+        if initNs is not None:
+            kw["initNs"] = initNs
         if prepared is not None:
             res = g.query(prepared, **kw)
+        elif text is not None:
+            res = g.query(text, **kw)
         else:
             res = g.query(query_text(q, mode, seed), **kw)
         return canon(res, colmap, is_ordered(q))
@@ -1080,6 +1135,12 @@ def run_impl(case):
             stats["agg_overlapping" if overlapping else "agg_disjoint"] = 1
             check(tag, evaluate(build(data, "agg", split=split), q),
                   "ReadOnlyGraphAggregate of %s members" % ("overlapping" if overlapping else "disjoint"))
+            # members living in different stores, carrying the same graph name or not
+            for ids in ("stores", "same_iri", "same_bnode", "mixed"):
+                stats["agg_ids_" + ids] = stats.get("agg_ids_" + ids, 0) + 1
+                check(tag + "-" + ids, evaluate(build(data, "agg", split=split, agg_ids=ids), q),
+                      "ReadOnlyGraphAggregate of %s members in different stores (identifiers: %s)"
+                      % ("overlapping" if overlapping else "disjoint", ids))
 
     elif stream == "bgp":
         vs = frag_vars(q)
@@ -1088,8 +1149,10 @@ def run_impl(case):
         split = case["split"]
         overlapping = any(isinstance(m, list) for m in split)
         stats["agg_overlapping" if overlapping else "agg_disjoint"] = 1
+        stats["agg_ids_" + case.get("agg_ids", "fresh")] = 1
         for kind in ("mem", "simple", "aud", "agg"):
-            r = evaluate(build(data, kind, split=split, order_seed=seed), q, init=ib)
+            r = evaluate(build(data, kind, split=split, order_seed=seed, agg_ids=case.get("agg_ids", "fresh")), q,
+                         init=ib)
             for _ in range(3 if kind == "mem" else 1):
                 obs.append(rows_line(r, vs))
             if kind != "mem":
@@ -1119,6 +1182,49 @@ def run_impl(case):
             if r != fresh[nm]:
                 viol.append("prepared: prepared fragment query on %s gives %s, fresh gives %s"
                             % (nm, _short(r), _short(fresh[nm])))
+
+    elif stream == "nsctx":
+        # the text uses `ux:` without declaring it; the SAME text is evaluated, as a string, against graphs /
+        # initNs that give `ux:` different namespaces, one after the other in this process.  Each answer must
+        # be the answer of the query with every IRI written out in full.
+        text = query_text(q, "ctx")
+        full = {NS: query_text(q, "full", ns=NS), NS2: query_text(q, "full", ns=NS2)}
+        gA = build_two_ns(data, case["data2"], ds, NS)
+        gB = build_two_ns(data, case["data2"], ds, NS2)
+        gs = {"A": gA, "B": gB}
+        bound = {"A": NS, "B": NS2}
+        steps = [("A", None), ("B", None), ("A", None)]
+        extra = [("A", NS2), ("B", NS), ("rebindA", None), ("A", None), ("prepB", None), ("B", None)]
+        rng.shuffle(extra)
+        steps += extra[: rng.randint(2, len(extra))]
+        for k, (who, ins) in enumerate(steps):
+            if who == "rebindA":      # the same graph re-binds the prefix
+                bound["A"] = NS2 if bound["A"] == NS else NS
+                gA.bind("ux", URIRef(bound["A"]), override=True, replace=True)
+                stats["ns_rebind"] = stats.get("ns_rebind", 0) + 1
+                continue
+            if who == "prepB":        # a prepared query carries the namespaces it was prepared with
+                try:
+                    pq = prepareQuery(text, initNs={"ux": URIRef(NS)})
+                    got, ns = evaluate(gB, q, prepared=pq), NS
+                except Exception as e:  # noqa: BLE001
+                    got, ns = ("err", _exc_name(e)), NS
+                g = gB
+                how = "prepareQuery(text, initNs={ux: ns}) on graph B"
+            else:
+                g = gs[who]
+                ns = ins or bound[who]
+                got = evaluate(g, q, text=text, initNs=({"ux": URIRef(ins)} if ins else None))
+                how = "Graph.query(text%s) on graph %s" % (", initNs={ux: %s}" % ins if ins else "", who)
+            want = evaluate(g, q, text=full[ns])
+            compared += 1
+            stats["ns_steps"] = stats.get("ns_steps", 0) + 1
+            if want[0] == "ok" and want[2]:
+                stats["ns_want_nonempty"] = stats.get("ns_want_nonempty", 0) + 1
+            if got != want:
+                viol.append("nsctx: step %d, %s with ux: = <%s> gives %s but the fully expanded query gives %s"
+                            % (k + 1, how, ns, _short(got), _short(want)))
+                break
 
     elif stream == "sel":
         vs = VARS[: case["nvars"]]
